@@ -496,6 +496,26 @@ func main() {
 		{"decoderRoots", []string{"NewMapXml", "NewMapXmlReader", "NewMapXmlReaderRaw", "HandleXmlReader", "HandleXmlReaderRaw", "NewMapXmlSeq", "NewMapFormattedXmlSeq", "NewMapXmlSeqReader", "NewMapXmlSeqReaderRaw", "NewMapJson", "NewMapJsonReader", "NewMapJsonReaderRaw", "NewMapGob"}},
 		{"queryRoots", []string{"Map.ValuesForKey", "Map.ValueForKey", "Map.ValuesForPath", "Map.ValueForPath", "Map.ValueForPathString", "Map.ValueOrEmptyForPathString", "Map.PathsForKey", "Map.PathForKeyShortest", "Map.Exists", "Map.LeafNodes", "Map.LeafPaths", "Map.LeafValues", "Map.Elements", "Map.Attributes", "Map.Root", "Map.Xml", "Map.XmlIndent", "Map.XmlWriter", "Map.XmlIndentWriter", "MapSeq.Xml", "MapSeq.XmlIndent", "Map.Json", "Map.JsonIndent", "Map.Gob", "Map.Copy", "Map.StringIndent", "Map.StringIndentNoTypeInfo", "AnyXml", "AnyXmlIndent", "NewMapXml", "NewMapXmlSeq", "NewMapJson", "NewMapXmlReader", "NewMapXmlReaderRaw", "HandleXmlReader", "HandleXmlReaderRaw", "NewMapFormattedXmlSeq", "NewMapXmlSeqReader", "NewMapXmlSeqReaderRaw", "NewMapJsonReader", "NewMapJsonReaderRaw", "HandleJsonReader", "HandleJsonReaderRaw", "NewMapGob", "BeautifyXml", "MapSeq.XmlWriter", "MapSeq.XmlIndentWriter", "Map.JsonWriter", "Map.JsonWriterRaw", "Map.JsonIndentWriter", "Map.JsonIndentWriterRaw", "Map.NewMap", "NewMapsFromXmlFile", "NewMapsFromJsonFile", "Maps.XmlString", "Maps.JsonString"}},
 	}
+	// per-property API groups for the frame theorems (Props/CxxExtFrame.lean): which package-level
+	// variables the functions a property observes may read at all, and that they write none
+	rootSets = append(rootSets, [][2]interface{}{
+		{"c01FrameRoots", []string{"NewMapXml", "NewMapXmlReader", "NewMapXmlReaderRaw"}},
+		{"c03FrameRoots", []string{"Map.Xml", "Map.XmlIndent", "Map.XmlWriter", "Map.XmlIndentWriter", "AnyXml", "AnyXmlIndent"}},
+		{"c06FrameRoots", []string{"Map.Json", "Map.JsonIndent", "Map.JsonWriter", "Map.JsonWriterRaw", "Map.JsonIndentWriter", "Map.JsonIndentWriterRaw", "NewMapJson", "Map.Copy"}},
+		{"c07FrameRoots", []string{"Map.ValuesForPath", "Map.ValueForPath", "Map.ValueForPathString", "Map.ValueOrEmptyForPathString", "Map.Exists"}},
+		{"c08FrameRoots", []string{"Map.ValuesForKey", "Map.ValueForKey", "Map.PathsForKey", "Map.PathForKeyShortest"}},
+		{"c09FrameRoots", []string{"Map.LeafNodes", "Map.LeafPaths", "Map.LeafValues"}},
+		{"c10FrameRoots", []string{"Map.UpdateValuesForPath"}},
+		{"c11FrameRoots", []string{"Map.SetValueForPath", "Map.Remove", "Map.RenameKey"}},
+		{"c12FrameRoots", []string{"Map.NewMap"}},
+		{"c13FrameRoots", []string{"NewMapJsonReader", "NewMapJsonReaderRaw", "HandleJsonReader", "HandleJsonReaderRaw"}},
+		{"c19FrameRoots", []string{"Map.Gob", "NewMapGob"}},
+		{"c02FrameRoots", []string{"NewMapXml", "Map.Xml", "Map.XmlIndent"}},
+		{"c04FrameRoots", []string{"NewMapXmlSeq", "NewMapFormattedXmlSeq", "MapSeq.Xml", "MapSeq.XmlWriter"}},
+		{"c05FrameRoots", []string{"Map.Xml", "Map.XmlIndent", "MapSeq.Xml", "AnyXml"}},
+		{"c14FrameRoots", []string{"NewMapXml", "NewMapXmlSeq"}},
+		{"c16FrameRoots", []string{"Map.Xml", "Map.XmlIndent", "Map.XmlWriter", "Map.XmlIndentWriter", "Map.Json", "Map.JsonIndent", "Map.JsonWriter", "Map.JsonWriterRaw", "Maps.XmlString", "Maps.JsonString", "MapSeq.Xml"}},
+	}...)
 	for _, rs := range rootSets {
 		name := rs[0].(string)
 		roots := rs[1].([]string)
